@@ -126,4 +126,47 @@ theorem polyEval_defined : ∀ (ks : List (Rat × V3)) (t : Rat) (k0 : Rat × V3
             apply hl kl
             simpa [List.getLast?_cons_cons] using hkl
 
+/-! ### two rotations about one axis -/
+
+/-- numerator form of the quaternion rotation: `N·R v = N v + 2 (w a×v + a×(a×v))`, `N = w² + |a|²` -/
+theorem rotLin_num (w : Rat) (a v : V3) (hN : w * w + V3.dot a a ≠ 0) :
+    V3.smul (w * w + V3.dot a a) (rotLin w a v) =
+      V3.smul (w * w + V3.dot a a) v + V3.smul 2 (V3.smul w (V3.cross a v) + V3.cross a (V3.cross a v)) := by
+  simp only [V3.dot] at hN
+  have hN2 : w ^ 2 + (a.x ^ 2 + a.y ^ 2 + a.z ^ 2) ≠ 0 := by
+    intro h; apply hN; rw [← h]; ring
+  apply V3.ext' <;> c17_unfold <;> field_simp
+
+theorem rotLin_compose (w1 w2 : Rat) (a v : V3) (h1 : w1 * w1 + V3.dot a a ≠ 0) (h2 : w2 * w2 + V3.dot a a ≠ 0) :
+    rotLin w2 a (rotLin w1 a v) = rotLin (w1 * w2 - V3.dot a a) (V3.smul (w1 + w2) a) v := by
+  have hN : (w1 * w2 - V3.dot a a) * (w1 * w2 - V3.dot a a) + V3.dot (V3.smul (w1 + w2) a) (V3.smul (w1 + w2) a)
+      = (w1 * w1 + V3.dot a a) * (w2 * w2 + V3.dot a a) := by c17_unfold; ring
+  have hN' : (w1 * w2 - V3.dot a a) * (w1 * w2 - V3.dot a a) + V3.dot (V3.smul (w1 + w2) a) (V3.smul (w1 + w2) a) ≠ 0 := by
+    rw [hN]; exact mul_ne_zero h1 h2
+  have E1 := rotLin_num w1 a v h1
+  have E3 := rotLin_num w2 a (rotLin w1 a v) h2
+  have E2 := rotLin_num (w1 * w2 - V3.dot a a) (V3.smul (w1 + w2) a) v hN'
+  rw [hN] at E2
+  generalize rotLin w2 a (rotLin w1 a v) = L at E3 ⊢
+  generalize rotLin w1 a v = u at E1 E3
+  generalize rotLin (w1 * w2 - V3.dot a a) (V3.smul (w1 + w2) a) v = R at E2 ⊢
+  have e1x := congrArg V3.x E1; have e1y := congrArg V3.y E1; have e1z := congrArg V3.z E1
+  have e2x := congrArg V3.x E2; have e2y := congrArg V3.y E2; have e2z := congrArg V3.z E2
+  have e3x := congrArg V3.x E3; have e3y := congrArg V3.y E3; have e3z := congrArg V3.z E3
+  have hne : (w1 * w1 + V3.dot a a) * (w2 * w2 + V3.dot a a) ≠ 0 := mul_ne_zero h1 h2
+  simp only [V3.dot, V3.smul_x, V3.smul_y, V3.smul_z, V3.add_x, V3.add_y, V3.add_z, V3.cross_x, V3.cross_y, V3.cross_z]
+    at e1x e1y e1z e2x e2y e2z e3x e3y e3z hne
+  apply V3.ext'
+  · apply mul_left_cancel₀ hne
+    linear_combination (w1 * w1 + (a.x * a.x + a.y * a.y + a.z * a.z)) * e3x
+      + (w2 * w2 + (a.x * a.x + a.y * a.y + a.z * a.z)) * e1x + 2 * w2 * (a.y * e1z - a.z * e1y)
+      + 2 * (a.x * a.y * e1y - (a.y * a.y + a.z * a.z) * e1x + a.x * a.z * e1z) - e2x
+  · apply mul_left_cancel₀ hne
+    linear_combination (w1 * w1 + (a.x * a.x + a.y * a.y + a.z * a.z)) * e3y
+      + (w2 * w2 + (a.x * a.x + a.y * a.y + a.z * a.z)) * e1y + 2 * w2 * (a.z * e1x - a.x * e1z)
+      + 2 * (a.y * a.z * e1z - (a.z * a.z + a.x * a.x) * e1y + a.y * a.x * e1x) - e2y
+  · apply mul_left_cancel₀ hne
+    linear_combination (w1 * w1 + (a.x * a.x + a.y * a.y + a.z * a.z)) * e3z
+      + (w2 * w2 + (a.x * a.x + a.y * a.y + a.z * a.z)) * e1z + 2 * w2 * (a.x * e1y - a.y * e1x)
+      + 2 * (a.z * a.x * e1x - (a.x * a.x + a.y * a.y) * e1z + a.z * a.y * e1y) - e2z
 end CBV.C17
